@@ -30,7 +30,7 @@ def families():
     F["harmonic"] = (x0, "harmonic {\n name b\n colvars x0\n centers 0.4\n forceConstant 3.0\n}\n", {})
     F["harmonic_moving"] = (x0, "harmonic {\n name b\n colvars x0\n centers -1.0\n targetCenters 1.5\n targetNumSteps 14\n forceConstant 3.0\n outputAccumulatedWork on\n outputCenters on\n}\n", {"dump": "r.dump b"})
     F["harmonic_moving_periodic"] = (xp, "harmonic {\n name b\n colvars x0\n centers 2.0\n targetCenters 4.5\n targetNumSteps 14\n forceConstant 3.0\n outputAccumulatedWork on\n}\n", {"dump": "r.dump b"})
-    F["harmonic_staged"] = (x0, "harmonic {\n name b\n colvars x0\n centers -1.0\n targetCenters 1.0\n targetNumSteps 4\n targetNumStages 4\n forceConstant 3.0\n outputAccumulatedWork on\n}\n", {"dump": "r.dump b"})
+    F["harmonic_staged"] = (x0, "harmonic {\n name b\n colvars x0\n centers -1.0\n targetCenters 1.0\n targetNumSteps 4\n targetNumStages 4\n forceConstant 3.0\n}\n", {"dump": "r.dump b"})
     F["harmonic_k"] = (x0, "harmonic {\n name b\n colvars x0\n centers 0.2\n forceConstant 1.0\n targetForceConstant 5.0\n targetNumSteps 16\n outputAccumulatedWork on\n}\n", {"dump": "r.dump b"})
     F["harmonic_k_staged"] = (x0, "harmonic {\n name b\n colvars x0\n centers 0.2\n forceConstant 1.0\n targetForceConstant 5.0\n targetNumSteps 5\n targetNumStages 3\n targetEquilSteps 2\n}\n", {"dump": "r.dump b"})
     F["walls"] = (x0, "harmonicWalls {\n name b\n colvars x0\n lowerWalls -0.5\n upperWalls 0.7\n forceConstant 4.0\n}\n", {})
@@ -53,7 +53,7 @@ def families():
     F["meta_2d"] = (x0 + x1, "metadynamics {\n name b\n colvars x0 x1\n hillWeight 0.2\n hillWidth 2.0\n newHillFrequency 3\n}\n", {"dump": "mt.dump b", "ncv": 2})
     F["opes"] = (x0, "opes_metad {\n name b\n colvars x0\n newHillFrequency 3\n barrier 5.0\n gaussianSigma 0.4\n}\n", {})
     F["opes_adaptive"] = (x0, "opes_metad {\n name b\n colvars x0\n newHillFrequency 2\n barrier 5.0\n adaptiveSigma on\n adaptiveSigmaStride 4\n}\n", {})
-    F["abmd"] = (x0, "abmd {\n name b\n colvars x0\n refInitVal -0.5\n stoppingValue 2.0\n forceConstant 3.0\n}\n", {})
+    F["abmd"] = (x0, "abmd {\n name b\n colvars x0\n stoppingValue 2.0\n forceConstant 3.0\n}\n", {})
     F["abmd_down"] = (x0, "abmd {\n name b\n colvars x0\n decreasing on\n stoppingValue -2.0\n forceConstant 3.0\n}\n", {})
     F["alb"] = (x0, "alb {\n name b\n colvars x0\n centers 0.5\n updateFrequency 4\n forceRange 1.0\n rateMax 1.0\n}\n", {})
     F["histogram"] = (x0 + x1, "histogram {\n name b\n colvars x0 x1\n}\n", {"dump": "h.dump b", "ncv": 2})
@@ -135,6 +135,7 @@ def gen(rng, tier):
             probe = ["m.forces"] + ["m.cv x%d ft fa" % i for i in range(ncv)] + ["m.bias b"]
             # uninterrupted
             L = setup(fam, conf, bias, opt, pfx + "u")
+            cfgs = [i + 1 for i, l in enumerate(L) if l.startswith("m.cfg")]
             ulines = {}
             # (engines write restart files during a run: the uninterrupted run also writes a state at K)
             plain = {}
@@ -178,7 +179,7 @@ def gen(rng, tier):
             L.append("m.savestr"); rfinal = len(L)
             cases.append({"lines": L, "meta": {"family": fam, "N": N, "K": K, "binary": binfmt, "u": ulines, "r": rlines, "nprobe": len(probe),
                                                 "udump": udump if opt.get("dump") else None, "rdump": rdump if opt.get("dump") else None,
-                                                "plain": plain, "ufinal": ufinal, "rfinal": rfinal, "saved": saved, "reloaded": reloaded, "load": loadl},
+                                                "cfgs": cfgs, "plain": plain, "ufinal": ufinal, "rfinal": rfinal, "saved": saved, "reloaded": reloaded, "load": loadl},
                           "nontrivial": 0 < K < N})
     return cases
 
@@ -259,6 +260,10 @@ def oracle(case, out):
     viol = []
     fam = m["family"]
     u = {int(k): v for k, v in m["u"].items()}; r = {int(k): v for k, v in m["r"].items()}
+    # (guard against vacuous cases: the configurations of a family must be accepted)
+    for ln in (m.get("cfgs") or []):
+        if out.get((ln, "rc", 1)) != ["i0"]:
+            return ["generator error: a configuration of family %s is rejected by the library (op line %d)" % (fam, ln)]
     rc = out.get((m["load"], "rc", 1))
     if rc != ["i0"]:
         return [("load failed: " + fam, "family %s: the state saved at step %d (%s) could not be loaded" % (fam, m["K"], "binary" if m["binary"] else "text"))]
